@@ -32,8 +32,17 @@ def run(tier, seed, t0):
     summ = json.loads(out.strip().splitlines()[-1])
     files = sorted(glob.glob(os.path.join(tdir, "c02-*.ndjson")))
     consumed, bad = vlib.validate_traces("PublishTrace", "PublishTrace.cfg", files, timeout=1500, xmx="4g")
-    v = vlib.Verdict(PROP)
+    v = vlib.Verdict(PROP, own_kinds=("pubflags",))
     v.absorb(bad)
+    # consecutive publishes to the SAME exchange / routing key with changing flags go through the session
+    # driver and the connection-level trace spec (every Basic.Publish on the wire carries exactly the call's
+    # exchange, routing key, mandatory and immediate)
+    import scenarios
+    vlib.build_harness()
+    fscn = scenarios.generate("pubflags", 60 if tier == "quick" else 600, seed)
+    ffiles, fsumm = vlib.run_sessions(PROP + "-flags", fscn, tier)
+    fconsumed, fbad = vlib.validate_traces("ConnTrace", "ConnTrace.cfg", ffiles, timeout=1800, xmx="4g")
+    v.absorb(fbad)
     vlib.write_evidence(
         PROP, tier, seed, t0, mc, traces_validated=summ["evaluations"],
         evaluations=summ["evaluations"], distinct=summ["distinct_nontrivial"],
@@ -52,7 +61,8 @@ def run(tier, seed, t0):
                 "rotates over the (k, r, flags) cells instead of the full product)",
                 ", plus bodies up to 1 MiB" if tier == "thorough" else ", plus two bodies of 60-200 KB"),
         samples=summ["samples"], verdict=v, exhaustive=False,
-        extra={"trace_records_validated": consumed, "generated_classes": len(cases), "sessions": summ["sessions"],
+        extra={"flag_sequence_sessions": len(fscn), "flag_sequence_records": fconsumed,
+               "trace_records_validated": consumed, "generated_classes": len(cases), "sessions": summ["sessions"],
                "aborted_sessions": summ["aborted_sessions"], "panics_seen": summ["panics"]},
         assumptions=["content equality of the concatenated body frame payloads with the published body is a plain "
                      "byte comparison made at the broker end and recorded as an observation (content_ok); frame "
